@@ -49,6 +49,10 @@ def run_campaign(spec):
             v.spec_override = {"target": spec["target"], "decoded": rec["spec"]}
             raise v
         m = re.search(r"stat::number_of_executed_units:\s*(\d+)", log)
+        if r.returncode != 0 and re.search(r"(ModuleNotFoundError|ImportError)[^\n]*atheris", log):
+            # the coverage-guided tier needs the atheris wheel that tools/setup.py installs into .deps; without it this
+            # sub-check has nothing to say (the Hypothesis sub-checks of the property are unaffected)
+            return {"inconclusive": "atheris_unavailable"}
         if r.returncode != 0 or not m:
             raise HarnessError("fuzz campaign failed (exit %s): %s" % (r.returncode, log[-800:]))
         execs = int(m.group(1))
